@@ -817,6 +817,18 @@ def generate(repo):
     sp.loader.exec_module(m)
     for spec in m.SLICED:
         try:
+            if "pins" in spec:
+                tree = ast.parse(open(os.path.join(repo, spec["file"])).read())
+                fn = py2v.find_function(tree, spec["func"])
+                every = [ast.unparse(n) for n in ast.walk(fn) if isinstance(n, ast.stmt)]
+                for r, count in spec["pins"]:
+                    need(every.count(r) == count,
+                         f"statement `{r[:70]}` occurs {every.count(r)} times in {spec['func']}, expected {count}")
+                out.append("(* statements of %s that Model/FillRules.v transcribes by hand: all present *)\n"
+                           "Definition %s : list string := %s.\n"
+                           % (spec["func"], spec["name"], coq_list(coq_str(r) for r, _c in spec["pins"])))
+                report[spec["name"]] = {"status": "ok", "pins": len(spec["pins"])}
+                continue
             coq, h = sliced_fragment(repo, spec)
             out.append(coq)
             report[spec["name"]] = {"status": "ok", "hash": h}
